@@ -29,10 +29,12 @@ PRELUDE = "From Unimock Require Import Macro.ShapeRun.\nOpen Scope N_scope.\n"
 
 RECVS = ["ref", "mut", "owned", "rc", "arc", "box", "pin"]
 COQ_RECV = {"ref": "RcvRef", "mut": "RcvMut", "owned": "RcvOwned", "rc": "RcvRc", "arc": "RcvArc", "box": "RcvBox", "pin": "RcvPin"}
-CLASSES = ["u32", "tok", "string", "ref", "reftok", "str", "slice", "mut", "muttok", "mutlt", "T", "G", "impl"]
+CLASSES = ["u32", "tok", "string", "ref", "reftok", "str", "slice", "mut", "muttok", "mutlt", "mutnamed", "T", "G", "impl"]
 COQ_CLASS = {"u32": "POwned", "tok": "POwnedTok", "string": "PString", "ref": "PRef", "reftok": "PRefTok", "str": "PStr",
-             "slice": "PSlice", "mut": "PMut", "muttok": "PMutTok", "mutlt": "PMutLt", "T": "PGenericT", "G": "PGenericG", "impl": "PImpl"}
-MUT = ("mut", "muttok", "mutlt")
+             "slice": "PSlice", "mut": "PMut", "muttok": "PMutTok", "mutlt": "PMutLt",
+             "mutnamed": "PMut",     # `&'a mut u32`: the same class for the macro (the lifetime sits on the reference, not in the pointee)
+             "T": "PGenericT", "G": "PGenericG", "impl": "PImpl"}
+MUT = ("mut", "muttok", "mutlt", "mutnamed")
 RETS = ["unit", "u32", "tok", "string", "T", "option"]
 COQ_RET = {"unit": "RetUnit", "u32": "RetVal", "tok": "RetTok", "string": "RetString", "T": "RetGeneric", "option": "RetOption"}
 FLAVS = ["sync", "async", "rpit", "async_trait"]
@@ -68,6 +70,8 @@ def normalize(trait):
             # closure is annotated with the RPIT itself: E0562).  Main crate: excluded; probed separately (probe_known)
             m["flav"] = "async"
         for p in m["params"]:
+            if p["c"] == "mutnamed" and m["flav"] != "sync":
+                p["c"] = "mut"          # named lifetimes on async signatures are outside the grammar
             if p["c"] == "G" and not trait["generic"]:
                 p["c"] = "u32"
             if p["c"] == "impl" and not p.get("actual"):
@@ -162,7 +166,8 @@ def actual_ty(trait, m, p):
 
 def rust_param_ty(p):
     return {"u32": "u32", "tok": "Tok", "string": "String", "ref": "&u32", "reftok": "&Tok", "str": "&str", "slice": "&[u32]",
-            "mut": "&mut u32", "muttok": "&mut Tok", "mutlt": "&mut Lt<'_>", "T": "T", "G": "G", "impl": f"impl {BOUND}"}[p["c"]]
+            "mut": "&mut u32", "muttok": "&mut Tok", "mutlt": "&mut Lt<'_>", "mutnamed": "&'a mut u32", "T": "T", "G": "G",
+            "impl": f"impl {BOUND}"}[p["c"]]
 
 
 def rust_ret_ty(trait, m, concrete=False):
@@ -190,7 +195,7 @@ def rust_arg(trait, m, k, p, n):
     if c == "reftok": return f"let {v} = Tok({n});", f"&{v}"
     if c == "str": return f"let {v} = \"{n}\".to_string();", f"{v}.as_str()"
     if c == "slice": return f"let {v} = [{n}u32];", f"&{v}[..]"
-    if c == "mut": return f"let mut {v} = {n}u32;", f"&mut {v}"
+    if c in ("mut", "mutnamed"): return f"let mut {v} = {n}u32;", f"&mut {v}"
     if c == "muttok": return f"let mut {v} = Tok({n});", f"&mut {v}"
     if c == "mutlt": return f"let mut {v} = lt({n});", f"&mut {v}"
     return f"let {v} = {rust_value(actual_ty(trait, m, p), n)};", v
@@ -212,7 +217,8 @@ def rust_trait(ti, trait):
         recv = {"ref": "&self", "mut": "&mut self", "owned": "self", "rc": "self: Rc<Self>", "arc": "self: Arc<Self>",
                 "box": "self: Box<Self>", "pin": "self: Pin<&mut Self>"}[m["recv"]]
         ps = "".join(f", p{k}: {rust_param_ty(p)}" for k, p in enumerate(m["params"]))
-        gen = f"<T: {BOUND}>" if m["T"] else ""
+        gparams = (["'a"] if any(p["c"] == "mutnamed" for p in m["params"]) else []) + ([f"T: {BOUND}"] if m["T"] else [])
+        gen = "<" + ", ".join(gparams) + ">" if gparams else ""
         ret = rust_ret_ty(trait, m)
         if m["flav"] == "rpit":
             sig = f"fn t{ti}_m{j}{gen}({recv}{ps}) -> impl Future<Output = {ret}>"
@@ -237,7 +243,8 @@ def rust_driver(ti, mi, trait):
     cparams = "".join(f", {'mut ' if p['c'] in MUT else ''}p{k}" for k, p in enumerate(m["params"]))
     bumps = " ".join(f"p{k}.bump();" for k, p in enumerate(m["params"]) if p["c"] in MUT)
     first = "p0.id()" if n else "0"
-    closure = (f"|u{cparams}| {{ answered(addr_of(&u), vec![{shows}]); let r = 5000 + {first}; {bumps} {rust_ret_expr(m)} }}")
+    orig = " push(format!(\"O {}\", originality(u)));" if m["recv"] == "owned" else ""
+    closure = (f"|u{cparams}| {{ answered(addr_of(&u), vec![{shows}]); let r = 5000 + {first}; {bumps}{orig} {rust_ret_expr(m)} }}")
     if m["resp"] == "returns":
         resp = ".returns(5000u32)"
     elif m["resp"] == "answers":
@@ -277,6 +284,17 @@ def rust_driver(ti, mi, trait):
                 L += ["        let r = block_on(f);", "        sample(\"awaited\");", "        push(format!(\"R {}\", r.show()));", "        " + wline]
             else:
                 L += ["        drop(f);", "        sample(\"dropped\");"]
+        L.append("    }")
+    if recv == "owned" and m["flav"] == "sync" and m["resp"] != "returns" and m["opener"] != "next":
+        # finally the ORIGINAL itself is passed by value: the answer must receive that very instance (not a clone of it)
+        ids = ids_of(m, 7)
+        lets, args = [], []
+        for k, p in enumerate(m["params"]):
+            l, a = rust_arg(trait, m, k, p, ids[k])
+            lets.append(l); args.append(a)
+        L.append("    {")
+        L += ["        " + l for l in lets]
+        L += ["        push(\"O expect-original\".to_string());", f"        let _r = {path}({', '.join(['u'] + args)});"]
         L.append("    }")
     L.append("}")
     return "\n".join(L)
@@ -323,11 +341,33 @@ def both(traits, harness="shapes"):
     return cases, impl, model
 
 
+def own_receiver_check(lines):
+    """by-value receivers: the answer function reports whether it was handed the original instance or a clone
+    (Unimock::no_verify_in_drop refuses clones).  Calls made on `u.clone()` must see a clone, the final call made on
+    the original itself must see the original; the lines of the extra call are not part of the model's prediction."""
+    if not any(l.startswith("O ") for l in lines):
+        return lines
+    out, bad, after = [], [], False
+    for l in lines:
+        if l == "O expect-original":
+            after = True
+        elif l.startswith("O "):
+            want = "O original" if after else "O clone"
+            if l != want:
+                bad.append(f"RECEIVER {l} where {want} is required")
+        elif not after:
+            out.append(l)
+    if after and not any(l == "O original" for l in lines):
+        bad.append("RECEIVER the answer function never saw the original instance")
+    return out + bad
+
+
 def proj(lines):
     """the property's projection: matcher views (consecutive repeats collapsed), answer calls with receiver and arguments,
     result, caller variables, and at each sample point whether/how often evaluation has happened (answer count exact,
     matcher count only as zero / non-zero)"""
     out = []
+    lines = own_receiver_check(lines)
     for l in lines:
         if l.startswith("C "):
             l = re.sub(r" m=(\d+)", lambda mo: " m=0" if mo.group(1) == "0" else " m>0", l)
